@@ -69,7 +69,7 @@ NEEDS_NO_CHUNK = [
     ("delimited-true-uppercase-outside-chunked", '<array name="a" type="string" delimited="TRUE"/>'),
     ("break-outside-chunked", '<field name="a" type="char"/><break/>'),
 ]
-POSITIONS_ALL = ["top", "chunked", "case", "chunkedcase", "afterchunked"]
+POSITIONS_ALL = ["top", "chunked", "case", "chunkedcase", "afterchunked", "nestedchunked", "casechunked"]
 POSITIONS_NOCHUNK = ["top", "case", "afterchunked"]
 
 ENUM_VIOLATIONS = [
@@ -105,6 +105,10 @@ def wrap(seq, position):
         return f'<chunked><field name="sel" type="char"/><switch field="sel"><case value="1">{seq}</case></switch></chunked>'
     if position == "afterchunked":
         return f'<chunked><field name="c0" type="string"/></chunked>{seq}'
+    if position in ("nestedchunked", "casechunked"):
+        from . import specgen
+        return specgen.body_xml.__globals__["body_xml"]((), position).replace("</chunked></chunked>", seq + "</chunked></chunked>") \
+            if False else _wrap2(seq, position)
     raise KeyError(position)
 
 
@@ -139,3 +143,10 @@ def tree_cases():
     yield "packet-body-violation", {"": root_ok, "net": NET, "net/client": '<protocol><packet family="Fam" action="Act"><field type="char"/></packet></protocol>'}
     yield "packet-break-outside-chunked", {"": root_ok, "net": NET, "net/server": '<protocol><packet family="Fam" action="Act"><break/></packet></protocol>'}
     yield "struct-in-other-file-violation", {"": root_ok, "map": '<protocol><struct name="M"><field name="a" type="char"/><field name="a" type="char"/></struct></protocol>'}
+
+
+def _wrap2(seq, position):
+    if position == "nestedchunked":
+        return f'<chunked><field name="c0" type="string"/><break/><chunked>{seq}</chunked></chunked>'
+    return (f'<chunked><field name="sel" type="char"/><switch field="sel"><case value="1"><chunked>{seq}</chunked>'
+            f'</case></switch></chunked>')
